@@ -10,7 +10,7 @@ CONSTANTS
   Sizes <- Sz13
   WWs = {1}
   MWs = {1}
-  NWs = {1, 2}
+  NWs = {1}
   GWs = {1}
   Buds = {0}
   NSAs = {FALSE}
